@@ -162,7 +162,7 @@ CHECKS = {
           "of the configuration matrix and every stop moment the run reaches the stop and the stop returns (no crash, no hang); the two "
           "old shapes are shown to crash. Whole crawls stopped at origin-chosen moments across the matrix (SOCKS5 proxy, async WARC, rate "
           "limiter, seencheck off, paused, requests held open): Stop must return in bounded time without panic and leave only finally "
-          "named WARC files made of complete members.",
+          "named WARC files made of complete members. The stop model follows stopPipeline from the watchers (what each watcher goroutine does when its context is cancelled) through the stages to the source (a consumer waiting in ReceiveInsert is woken by Freeze).",
   "note": COMMON_NOTE + "Goroutine-level termination of each Stop() is observed (watchdog + goroutine dump), not proved; the model decides only "
           "which paths a configuration makes reachable. WARC finalisation is the library's contract, validated by read-back.",
  },
@@ -183,7 +183,7 @@ CHECKS = {
           "default (fact); archive() fetches only PreProcessed nodes (fact). Facts: filter order and shapes, remove-vs-complete "
           "branches, dedupe/seencheck/request placement. Scripted sites x random filter combinations run through the real preprocess "
           "(real normaliser) / ProcessBody / postprocess / CompleteAndCheck; each step is replayed on the model and every built request "
-          "is judged by an independent reference predicate.",
+          "is judged by an independent reference predicate. The include / exclude tests of preprocess() are translated from the source on every run into condition terms; a theorem proves, over all valuations of what they look at, that they reject exactly what the property calls out of scope, and that nothing in them is opaque to the translator.",
   "note": COMMON_NOTE + "Modelled not verified: the URL parser and the regex engine are oracles (the normaliser's own shape guarantees are "
           "C09's); archive() is replaced by scripted answers at this level and runs for real only in the end-to-end scenarios.",
  },
@@ -218,7 +218,7 @@ CHECKS = {
           "through the real stages until the seed finishes; each fetch, node and outlink is judged by an independent oracle and each "
           "step is replayed on the model. Added: 'every seed finishes after a bounded number of passes' as a theorem over the composed "
           "stage models (one pass either ends the seed's life or deepens its tree by exactly one level; no tree in start-of-pass shape is "
-          "deeper than 4*max-redirect+3), judged on the real stages pass by pass.",
+          "deeper than 4*max-redirect+3), judged on the real stages pass by pass. The if / else-if chain that completes an item without extraction and the two extraction guards are translated from the source on every run; theorems prove that they take the decisions of the model for every depth, hop count, hop limit and flag combination, and that nothing in them is opaque to the translator.",
   "note": COMMON_NOTE + "The depth limit is proved as an invariant of whole trees for postprocess and archive (every subtree with pending work is "
           "within three levels); preprocess and completion marking are covered by the stage-level runs. Termination of a whole seed (pass "
           "count) is checked on the implementation, not proved.",
